@@ -20,11 +20,84 @@ TRUSTED_BASE = [
     "Lean 4.33.0 kernel (thorough tier: re-checked with leanchecker)",
     "axioms allowed in property theorems: propext, Classical.choice, Quot.sound (audited with #print axioms on every run); no sorry/admit/axiom/native_decide/bv_decide/implemented_by/unsafe (source grep on every run)",
     "Mathlib v4.33.0 single modules imported by proof files only",
-    "hand-written executable Lean model of the Python code (CR/Model/*.lean); tied to /repo's working tree only by the correspondence suites run by this check",
+    "hand-written executable Lean model of the Python code (CR/Model/*.lean); tied to /repo's working tree by the correspondence suites run by this check (deciding tie) and, for the pure functions listed under proof.translator_tie, by tie theorems re-checked against a fresh mechanical translation of the working tree (harness/py2lean.py + CR/Extracted/Prelude.lean are the trusted base of that second tie: parameter-type annotations, UnboundLocalError/IndexError/ZeroDivisionError/TypeError not modelled, ints in float positions read as floats, file writes dropped, struct-of-arrays view of state_list)",
     "Python harness, generators and exact-Fraction oracles: trusted for the failing-input search and the direct oracle pass, not for the theorems",
     "exact-arithmetic theorems vs IEEE doubles: the Float instantiation of the same model is compared with CPython bit-for-bit / within 1e-12; nothing is proved about rounding error",
     "CPython random/repr/eval/argparse/filesystem/deepcopy: not modelled",
 ]
+
+
+# which hand-proved tie modules (translation of the code == hand-written model) concern which property
+TIE_MODULES = {
+    "C01": ["Tad", "Rdfs"], "C02": ["Tad"], "C03": ["Tad"], "C04": ["Tad"], "C05": ["Tad"], "C06": ["Tad", "Rdfs"],
+    "C07": ["Rdfs"], "C08": ["Gen", "Gen2"], "C11": ["Gen", "Gen2"], "C13": ["Tad", "Rdfs"], "C14": ["Tad"],
+    "C15": ["Gen2"], "C17": ["Gen2"],
+}
+TIE_SOURCES = {"Gen": ["roberta_generator.py"], "Gen2": ["roberta_generator.py", "stochastic_game_from_roborta_board.py"],
+               "Rdfs": ["reverse_dfs.py"], "Tad": ["tad.py"]}
+
+
+def translator_tie(prop, env):
+    """Second tie (DESIGN.md 12): re-translate the pure functions of /repo's working tree into
+    lean/CR/Extracted/*.lean and re-check the tie theorems (translation == hand model, all arguments) that concern
+    this property.  Never fatal: a tie that no longer checks is reported, makes the check look harder (failing-input
+    search), and is not a violation by itself — the correspondence suites remain the deciding tie."""
+    import py2lean
+    out = {"modules": [], "status": "not-applicable", "units": {}, "theorems": [], "axioms_ok": None}
+    mods = [m for m in TIE_MODULES.get(prop, []) if os.path.exists(os.path.join(LEAN_DIR, "CR", "Tie", m + ".lean"))]
+    try:
+        rep = py2lean.run()
+    except Exception as e:  # noqa
+        out.update(status="translator-failed", detail=f"{type(e).__name__}: {e}"[:500])
+        return out
+    srcs = {f for m in mods for f in TIE_SOURCES[m]}
+    out["units"] = {k: v for k, v in rep["units"].items() if k.split(":")[0] in srcs}
+    out["regenerated_files_differ_from_last_run"] = rep["changed_files"]
+    if not mods:
+        return out
+    out["modules"] = ["CR.Tie." + m for m in mods]
+    t0 = time.time()
+    p = subprocess.run(["lake", "build"] + out["modules"], cwd=LEAN_DIR, capture_output=True, text=True, env=env)
+    out["wall_s"] = round(time.time() - t0, 2)
+    if p.returncode != 0:
+        errs = [l for l in (p.stdout + p.stderr).split("\n") if l.startswith("error:")]
+        out.update(status="broken", detail="\n".join(errs[:8])[:1500])
+        return out
+    # axioms of the tie theorems
+    names = []
+    for m in mods:
+        src = strip_comments(open(os.path.join(LEAN_DIR, "CR", "Tie", m + ".lean")).read())
+        if FORBIDDEN.search(src):
+            out.update(status="broken", detail=f"forbidden construct in CR/Tie/{m}.lean")
+            return out
+        for mm in re.finditer(r"^\s*theorem\s+([^\s:({\[]+)", src, re.M):
+            names.append("CR.Tie." + mm.group(1))
+    audit = os.path.join(LEAN_DIR, ".lake", f"audit_tie_{prop}.lean")
+    with open(audit, "w") as f:
+        for m in mods:
+            f.write(f"import CR.Tie.{m}\n")
+        for n in names:
+            f.write(f"#print axioms {n}\n")
+    q = subprocess.run(["lake", "env", "lean", audit], cwd=LEAN_DIR, capture_output=True, text=True, env=env)
+    txt = q.stdout + q.stderr
+    bad = []
+    for n in names:
+        mm = re.search(r"'" + re.escape(n) + r"' (does not depend on any axioms|depends on axioms: \[([^\]]*)\])", txt)
+        if not mm:
+            bad.append(n + " (not found)")
+            continue
+        axs = set(a.strip() for a in (mm.group(2) or "").replace("\n", " ").split(",") if a.strip())
+        if not axs <= ALLOWED_AXIOMS:
+            bad.append(n + " (axioms " + ",".join(sorted(axs - ALLOWED_AXIOMS)) + ")")
+    out["theorems"] = names
+    out["axioms_ok"] = not bad
+    if bad or q.returncode != 0:
+        out.update(status="broken", detail=("axiom audit: " + "; ".join(bad))[:1500])
+    else:
+        untr = [k for k, v in out["units"].items() if v != "translated"]
+        out["status"] = "checked"
+        out["not_translated"] = untr
+    return out
 
 
 def strip_comments(src):
@@ -141,5 +214,6 @@ def run(prop, tier):
         if p.returncode != 0:
             res["fatal"] = "leanchecker rejected CR.Props." + prop + ": " + res["leanchecker"]
             return res
+    res["translator_tie"] = translator_tie(prop, env)
     res["lean_wall_s"] = round(time.time() - t0, 2)
     return res
